@@ -415,10 +415,13 @@ class _resolve_called_lambdas(ast.NodeTransformer):
             for n in ast.walk(v)
             if isinstance(n, ast.Name)
         }
+        # A new name must also be new with respect to the names the lambda itself uses
+        own = {n.id for n in ast.walk(node) if isinstance(n, ast.Name)}
+        own |= {a.arg for a in node.args.args}
         mapping = {}
         for a in node.args.args:
             new_name = a.arg
-            while new_name in used:
+            while new_name in used or (new_name != a.arg and new_name in own):
                 self._rename_counter += 1
                 new_name = f"{a.arg}_{self._rename_counter}"
             mapping[a.arg] = ast.Name(id=new_name, ctx=ast.Load())
@@ -447,12 +450,13 @@ class _resolve_called_lambdas(ast.NodeTransformer):
             if isinstance(n, ast.Name)
         }
         first_iter = self.visit(node.generators[0].iter)
+        own = {n.id for n in ast.walk(node) if isinstance(n, ast.Name)}
         mapping = {}
         for g in node.generators:
             for t in ast.walk(g.target):
                 if isinstance(t, ast.Name):
                     new_name = t.id
-                    while new_name in used:
+                    while new_name in used or (new_name != t.id and new_name in own):
                         self._rename_counter += 1
                         new_name = f"{t.id}_{self._rename_counter}"
                     mapping[t.id] = ast.Name(id=new_name, ctx=ast.Load())
